@@ -36,7 +36,9 @@ PROP = {
             "dropped, or committed while another open session reads the table; ADD / DROP COLUMN on tables that never held a row; "
             "SET / DROP NOT NULL in autocommit or a committed session followed by a NULL insert; CREATE UNIQUE INDEX / ADD CONSTRAINT "
             "followed by a duplicate; statements on missing names and DDL that must be refused; a reader that began before a CREATE "
-            "committed; reopen, also with an open session holding DML and DDL. At most one finding feature per case (tags `kf:…`). "
+            "committed; reopen, also with an open session holding DML and DDL. A further family (60 / 600 cases): DROP TABLE in a session that rolls back or is dropped, then — after reads, an insert or a "
+            "reopen — a DROP TABLE that commits, the name probed, created again with another shape and read, also across reopen. "
+            "At most one finding feature per case (tags `kf:…`). "
             "Non-trivial (`nt`) = a DDL statement inside a transaction that rolls back, or DML on a table altered earlier in the case.",
     "assumptions": [
         "in the model ADD / DROP COLUMN re-write the rows the altering transaction sees; rows inserted by a transaction that is "
